@@ -83,6 +83,10 @@ structure XState where
   ne : List Str := []                          -- global names whose lookup raised NameError, first-raise order
   ae : List Str := []                          -- `module.attr` lookups that raised AttributeError
   lne : List Str := []                         -- local/free names that raised
+  line : Nat := 0                              -- line of the innermost `located` statement being executed
+  origins : List (Str × Nat × Nat) := []       -- global name ↦ (line, alias index) of the import statement whose
+                                               -- execution created its current binding (absent: not bound by an import)
+  usedImps : List (Nat × Nat) := []            -- origins of the global bindings that successful reads resolved to
   atEnd : Bool := false                        -- module level has reached the calls after the last statement
   early : Bool := false                        -- a function / lambda ran before that point
   otherRaised : Bool := false
@@ -206,9 +210,17 @@ def frameLookup (n : Str) : List Frame → Option Nat
     | some i => some i
     | none => frameLookup n fs
 
+def addOnceP (x : Nat × Nat) (l : List (Nat × Nat)) : List (Nat × Nat) := if l.contains x then l else l ++ [x]
+
+/-- a successful read of a global whose binding was created by an import statement records that import -/
+def noteUse (n : Str) (s : XState) : XState :=
+  match assocGet n s.origins with
+  | some o => { s with usedImps := addOnceP o s.usedImps }
+  | none => s
+
 def globalLookup (n : Str) : X RVal := fun s =>
   match assocGet n s.globals with
-  | some v => (s, .ok v)
+  | some v => (noteUse n s, .ok v)
   | none =>
     if s.builtins.contains n then (s, .ok (if n = "_K".toList then .opq else .rigid))
     else raiseName n s
@@ -237,19 +249,25 @@ def readName (ctx : Ctx) (n : Str) : X RVal :=
 
 def bindName (ctx : Ctx) (n : Str) (v : RVal) : X Unit :=
   match ctx.kind with
-  | .module => X.modify fun s => { s with globals := assocSet n v s.globals }
+  | .module => X.modify fun s => { s with globals := assocSet n v s.globals, origins := assocDel n s.origins }
   | .func =>
     match assocGet n (ctx.frames.headD []) with
     | some i => setCell i (some v)
-    | none => X.modify fun s => { s with globals := assocSet n v s.globals }   -- only reachable with `global` (extension)
+    | none => X.modify fun s => { s with globals := assocSet n v s.globals, origins := assocDel n s.origins }   -- only reachable with `global` (extension)
   | .cls _ => X.modify fun s =>
     match s.clsStack with
     | ns :: r => { s with clsStack := assocSet n v ns :: r }
     | [] => s
 
+/-- binding made by alias number `idx` of the import statement on the current line -/
+def bindImport (ctx : Ctx) (n : Str) (v : RVal) (idx : Nat) : X Unit :=
+  match ctx.kind with
+  | .module => X.modify fun s => { s with globals := assocSet n v s.globals, origins := assocSet n (s.line, idx) s.origins }
+  | _ => bindName ctx n v
+
 def unbindName (ctx : Ctx) (n : Str) : X Unit :=
   match ctx.kind with
-  | .module => X.modify fun s => { s with globals := assocDel n s.globals }
+  | .module => X.modify fun s => { s with globals := assocDelAll n s.globals, origins := assocDel n s.origins }
   | .func =>
     match assocGet n (ctx.frames.headD []) with
     | some i => setCell i none
@@ -347,6 +365,21 @@ def importChain : List (List Str) → Option Nat → X (Option Nat × Option Nat
 def delNames (ctx : Ctx) : List Str → X Unit
   | [] => pure ()
   | n :: r => do unbindName ctx n; delNames ctx r
+
+/-- `import a.b.c [as n]` after the modules are loaded: bind `n` to the leaf module, or the head name to the top module -/
+def bindAlias (ctx : Ctx) (a : Alias) (tl : Option Nat × Option Nat) (idx : Nat) : X Unit :=
+  match a.asname, tl with
+  | some n, (_, some leaf) => bindImport ctx n (.mod leaf) idx
+  | none, (some top, _) => bindImport ctx (aliasBinds a) (.mod top) idx
+  | _, _ => raiseOther
+
+/-- `from m import a`: an attribute of the module, else the sub-module `m.a` of the universe -/
+def fromValue (s : XState) (m : Str) (leaf : Nat) (a : Alias) : X RVal :=
+  match assocGet a.name ((s.mods[leaf]?.map (·.attrs)).getD []) with
+  | some v => pure v
+  | none =>
+    if isSubmodName a.name then do let id ← loadModule (m ++ '.' :: a.name); pure (RVal.mod id)
+    else raiseOther
 
 def unpack (v : RVal) (n : Nat) : X (List RVal) :=
   match v with
@@ -562,29 +595,22 @@ mutual
       | .ret v => pure (.ret v)
       | .normal => forLoop f ctx t body xs
 
-  def importAliases : Nat → Ctx → List Alias → X Unit
-    | 0, _, _ => X.throw .fuel
-    | _ + 1, _, [] => pure ()
-    | f + 1, ctx, a :: r => do
+  def importAliases : Nat → Ctx → Nat → List Alias → X Unit
+    | 0, _, _, _ => X.throw .fuel
+    | _ + 1, _, _, [] => pure ()
+    | f + 1, ctx, idx, a :: r => do
       let tl ← importChain (prefixes (splitDots a.name)) none
-      (match a.asname, tl with
-       | some n, (_, some leaf) => bindName ctx n (.mod leaf)
-       | none, (some top, _) => bindName ctx (aliasBinds a) (.mod top)
-       | _, _ => raiseOther)
-      importAliases f ctx r
+      bindAlias ctx a tl idx
+      importAliases f ctx (idx + 1) r
 
-  def importFromAliases : Nat → Ctx → Str → Nat → List Alias → X Unit
-    | 0, _, _, _, _ => X.throw .fuel
-    | _ + 1, _, _, _, [] => pure ()
-    | f + 1, ctx, m, leaf, a :: r => do
+  def importFromAliases : Nat → Ctx → Str → Nat → Nat → List Alias → X Unit
+    | 0, _, _, _, _, _ => X.throw .fuel
+    | _ + 1, _, _, _, _, [] => pure ()
+    | f + 1, ctx, m, leaf, idx, a :: r => do
       let s ← X.get
-      let v ← (match assocGet a.name ((s.mods[leaf]?.map (·.attrs)).getD []) with
-        | some v => pure v
-        | none =>
-          if isSubmodName a.name then do let id ← loadModule (m ++ '.' :: a.name); pure (RVal.mod id)
-          else raiseOther)
-      bindName ctx (aliasBinds a) v
-      importFromAliases f ctx m leaf r
+      let v ← fromValue s m leaf a
+      bindImport ctx (aliasBinds a) v idx
+      importFromAliases f ctx m leaf (idx + 1) r
 
   def runHandler : Nat → Ctx → Handler → X Flow
     | 0, _, _ => X.throw .fuel
@@ -642,11 +668,11 @@ mutual
          | .func => pure ()                       -- annotations of locals are not evaluated
          | _ => do let _ ← evalExpr f ctx ann; pure ())
         pure .normal
-      | .import_ names => do importAliases f ctx names; pure .normal
+      | .import_ names => do importAliases f ctx 0 names; pure .normal
       | .importFrom m names => do
         let tl ← importChain (prefixes (splitDots m)) none
         match tl with
-        | (_, some leaf) => do importFromAliases f ctx m leaf names; pure .normal
+        | (_, some leaf) => do importFromAliases f ctx m leaf 0 names; pure .normal
         | _ => raiseOther
       | .funcDef name a body decos returns => do
         let dvs ← evalExprs f ctx decos
@@ -718,7 +744,7 @@ mutual
         pure .normal
       | .global_ _ => pure .normal
       | .nonlocal_ _ => pure .normal
-      | .located _ s => execStmt f ctx s
+      | .located l s => do X.modify (fun st => { st with line := l }); execStmt f ctx s
 
   def execStmts : Nat → Ctx → List Stmt → X Flow
     | 0, _, _ => X.throw .fuel
